@@ -1,4 +1,4 @@
     ensures
-        r is Ok ==> reduced_ok(link_files@, r->Ok_0@),   // [C13]
+        r is Ok ==> reduced_ok(link_files@, r->Ok_0@),   // [C13,C08]
         r is Ok ==> forall|name: String| #[trigger] link_files@.contains_key(name) ==> link_files@[name]@.len() >= 1
             && r->Ok_0@[name] == link_files@[name]@[min_kid(link_files@[name]@.dom())],   // [C13,C02]
